@@ -23,11 +23,11 @@ RULE = ('(1) circular linear systems x = Ax+b, n=2..5, ||A||inf <= q in {0.2,0.5
         '(system, settings, channel, target) or (shape, ops).')
 BUDGET = {'quick': 30, 'thorough': 300}
 FLOORS = {
-    'quick': {'systems': 100, 'iter_pass_events': 1500, 'setter_events': 5000, 'stopped_by_tolerance': 50,
-              'stopped_by_cap': 20, 'countpass_checked': 30, 'twin_histories': 60, 'twin_compares': 1500,
-              'channel:args': 20, 'channel:mem': 20, 'channel:xlsx': 10, 'channel:json': 4,
-              'channel:yml': 4, 'channel:pkl': 4, 'via_range': 20, 'twin_writes': 200,
-              'second_call_without_arguments': 10, 'twins_with_reference_valued_cells': 20, 'directed:slow_system': 1},
+    'quick': {'systems': 40, 'iter_pass_events': 600, 'setter_events': 2000, 'stopped_by_tolerance': 20,
+              'stopped_by_cap': 8, 'countpass_checked': 10, 'twin_histories': 20, 'twin_compares': 500,
+              'channel:args': 6, 'channel:mem': 6, 'channel:xlsx': 3, 'channel:json': 1,
+              'channel:yml': 1, 'channel:pkl': 1, 'via_range': 6, 'twin_writes': 60,
+              'second_call_without_arguments': 3, 'twins_with_reference_valued_cells': 6, 'directed:slow_system': 1},
     'thorough': {'systems': 2500, 'stopped_by_tolerance': 1200, 'stopped_by_cap': 500,
                  'twin_histories': 1500, 'twin_compares': 40000},
 }
